@@ -525,3 +525,35 @@ pub fn prop() -> Prop {
         extra: None,
     }
 }
+
+/// For C06: the user-shape scenarios, judged for panics only.
+pub fn panics_only<C>(oracle: fn(&C, &mut Stats) -> Result<(), String>, c: &C, st: &mut Stats) -> Result<(), String> {
+    match oracle(c, st) {
+        Err(m) if m.contains("panicked") || m.contains("panic escaped") => Err(m),
+        _ => Ok(()),
+    }
+}
+
+pub fn c06_parse(c: &ParseCase, st: &mut Stats) -> Result<(), String> {
+    panics_only(o_parse, c, st)
+}
+
+pub fn c06_build(c: &BuildCase, st: &mut Stats) -> Result<(), String> {
+    panics_only(o_build, c, st)
+}
+
+pub fn c06_rebuild(c: &RebuildCase, st: &mut Stats) -> Result<(), String> {
+    panics_only(o_rebuild, c, st)
+}
+
+pub fn gparse_case() -> BoxedStrategy<ParseCase> {
+    (gtuple(false), gchoices(), gspec()).prop_map(|(tuple, choices, spec)| ParseCase { tuple, choices, spec }).boxed()
+}
+
+pub fn gbuild_case() -> BoxedStrategy<BuildCase> {
+    (gprogram(false), gspec()).prop_map(|(program, spec)| BuildCase { program, spec }).boxed()
+}
+
+pub fn grebuild_case() -> BoxedStrategy<RebuildCase> {
+    (gtuple(false), gchoices(), gspec(), gspec()).prop_map(|(tuple, choices, first, second)| RebuildCase { tuple, choices, first, second }).boxed()
+}
